@@ -19,6 +19,33 @@ NOT_BUILT = ("check not built yet in this round (planned in DESIGN.md section 9)
 NOT_APPLICABLE = {}
 
 CLAIMED = {
+    "C01": {
+        "text": "spec/FS.tla (tree with an outside world that mirrors every kind of inside node, POSIX resolution with a taint "
+                "for any consulted node outside the root) and spec/Handlers.tla (per-frame decode pipeline, stat before filter, "
+                "the six-substring filter against the property's own notion of hostile, Virtual split, ZIP walk-up and "
+                "re-dispatch, URL handler) give the design argument that TLC checks for every enumerated (handler list, frame, "
+                "selector): NormalForm, Containment (filter + literal concatenation => resolution stays inside), PrefixClosed, "
+                "Untainted, FilterGates, ClimbIsNotFound, NoCwdRelative. Every model state is replayed on the real server in "
+                "two worlds that differ only outside the root and from several working directories under a sys.addaudithook "
+                "hook; TraceC01 judges NoOutsideAccess, UrlNoFile, ClimbIsNotFound, NonInterference (byte-identical across "
+                "worlds and cwds).",
+        "note": "Trusted: TLC; path classification and audit hook in harness/c01.py; stat raises no audit event (covered by "
+                "non-interference and the model); selectors up to 3-4 characters over a 14-character hostile alphabet and up "
+                "to 3 tokens of 26 in quick, more in thorough; symlinks leaving the root are outside the quantifier.",
+    },
+    "C17": {
+        "text": "spec/TALES.tla (tagged values, expression evaluation), TALCompile.tla (program and symbol table as the compiler "
+                "builds them, opcode numbers imported from the tree), TALVM.tla (one action per opcode handler of "
+                "TemplateInterpreter over its real registers and the Context stacks) and the independent tree-walking reference "
+                "TALSem.tla (DESIGN.md Appendix E.4); MC_C17 enumerates templates of a bounded TAL grammar (every subset of the "
+                "six commands, every TALES form in every command position, nesting, nested repeats, local/global defines, "
+                "METAL macros and slots) x contexts and checks WellFormed, Terminates, Completes, Refines. Every case is "
+                "compiled by the real compiler and expanded under a tracing interpreter passed through the public "
+                "interpreter= parameter; TraceC17 replays each opcode event against TALVM (drift) and judges WellFormedProg "
+                "on the REAL program and Refines on the real document.",
+        "note": "Trusted: TLC; template rendering and HTML tokenizer in harness/c17_tal.py; areas where E.4 is silent are "
+                "excluded from the grammar; no random generation.",
+    },
     "C02": {
         "text": "spec/Wire.tla holds the documented request shape of every protocol (each definition cites its document) next "
                 "to a transcription of every canhandlerequest (incl. WAP's header slurp with read position and per-connection "
